@@ -981,7 +981,13 @@ def generate_request_object(
     ]
 
     # Don't add required fields if they're also marked as oneof
-    required_fields = [field for field in message.required_fields if not field.oneof]
+    # (a proto3 optional field sits in a synthetic oneof of its own, which
+    # is not among the oneofs selected above).
+    required_fields = [
+        field
+        for field in message.required_fields
+        if not field.oneof or field.proto3_optional
+    ]
     request_fields = selected_oneofs + required_fields
 
     for field in request_fields:
